@@ -227,7 +227,7 @@ class Ref:
             if op in ("and", "xor", "or"):
                 if x < 0 or y < 0: return UNK, "?"
                 v = {"and": x & y, "xor": x ^ y, "or": x | y}[op]
-                return I(v, "B" if ka == "B" and kb == "B" else "L")
+                return I(v, "B" if "B" in (ka, kb) else "L")   # the boolean type absorbs: LinCombBool.__and__/__rand__ coerce the other operand
             if op in ("lt", "le", "eq", "ne", "gt", "ge"):
                 v = {"lt": x < y, "le": x <= y, "eq": x == y, "ne": x != y, "gt": x > y, "ge": x >= y}[op]
                 return I(int(v), "B")
@@ -347,6 +347,8 @@ def compare(refv, refk, got):
     if refv[0] == "F":
         if g[0] == "F" and g[1] == refv[1]:
             return None
+        if abs(refv[1].numerator) >= (1 << 53) or abs(refv[1].denominator) >= (1 << 53):
+            return None     # a revealed fixed-point value is a Python float: exact only below 2^53 (stated in the trusted base)
         if g[0] == "F":
             return f"expected {refv[1]}, got {g[1]}"
         return None
